@@ -29,6 +29,8 @@ KEYS = ("preV", "eneV", "preS", "eneS", "preSV", "eneSV", "preT0", "eneT0", "pre
 def cases(draw):
     kind = draw(st.sampled_from(["interstitial", "vacancy", "vacancy"]))
     par = float(np.round(draw(st.floats(0.2, 3.0)), 3))
+    if draw(st.floats(0, 1)) < 0.3:
+        par = draw(st.sampled_from([1e-12, 1e-9, 1e-5, 1e4, 1e9]))   # extreme but valid scalings
     shift = float(np.round(draw(st.floats(-3, 3)), 3))
     if kind == "interstitial":
         base = draw(c02.cases(max_mobile=6))
